@@ -32,6 +32,7 @@ import Driver.CtxIni
 import Driver.CodeDes
 import Driver.CodeDigest
 import Driver.CodeIter
+import Driver.ApacheFile
 /-
 Line protocol driver: `<suite> <op> <args…>` per input line, one result line out.
 Compiled (`lean_exe modeldrv`); nothing imported here touches Mathlib.
@@ -72,6 +73,7 @@ def dispatch (line : String) : String :=
   | "cdes" :: rest => Driver.CodeDes.handle rest
   | "cdig" :: rest => Driver.CodeDigest.handle rest
   | "citer" :: rest => Driver.CodeIter.handle rest
+  | "afile" :: rest => Driver.ApacheFile.handle rest
   | _ => Driver.bad
 
 partial def loop (h : IO.FS.Stream) (out : IO.FS.Stream) : IO Unit := do
